@@ -56,8 +56,8 @@ def plant(fault, level, delta, w, n):
     elif fault == 5:  # through a port reference
         other = Ext("Wide", [("a", wd), ("b", 1)])
         add(Inst("src", other, {"a": Open, "b": g})); add(Inst("bad", cell, {"a": PRef("src", "a"), "b": g}))
-    elif fault == 6:  # array: neither w nor n*w
-        m.sigs.append(("wrong", wd)); add(Inst("bad", cell, {"a": Sig("wrong"), "b": g}, kind="array", n=n))
+    elif fault == 6:  # array: neither w nor n*w (delta > 0: slightly more than n*w; delta < 0: slightly less than w)
+        m.sigs.append(("wrong", n * w + delta if delta > 0 else wd)); add(Inst("bad", cell, {"a": Sig("wrong"), "b": g}, kind="array", n=n))
     elif fault == 7:  # missing connection
         add(Inst("bad", cell, {"a": bus}))
     elif fault == 8:  # extra connection
